@@ -375,6 +375,15 @@ func (conn *obfs4Conn) clientHandshake(nodeID *ntor.NodeID, peerIdentityKey *nto
 		conn.encoder = framing.NewEncoder(okm[:framing.KeyLength])
 		conn.decoder = framing.NewDecoder(okm[framing.KeyLength:])
 
+		// The server sends its PRNG seed frame (and possibly payload)
+		// right behind the handshake response, and all of it may have
+		// arrived with the bytes that were just consumed.  Decode what is
+		// already buffered, as Read() only decodes after new data has
+		// arrived off the network.
+		if err := conn.decodePackets(); err != nil && !errors.Is(err, framing.ErrAgain) {
+			return err
+		}
+
 		return nil
 	}
 }
